@@ -331,7 +331,7 @@ def maximally_mixed_state(d:int):
         ret (np.ndarray): the maximally mixed state, `ret.ndim=2` of shape $(d^2,d^2)$
     '''
     assert d>=1
-    ret = np.eye(d*d) / d*d
+    ret = np.eye(d*d) / (d*d)
     return ret
 
 
